@@ -357,8 +357,8 @@ func (v *Verifier) execAssign(s *State, x *ast.AssignStmt) {
 		if op == token.SHL || op == token.SHR {
 			res = v.shift(s, op, cur, rhs, t, v.typeOf(x.Rhs[0]), x.Pos())
 		} else if isString(t) && op == token.ADD {
-			v.d.declareFun("str.cat", []string{SStr, SStr}, SStr)
-			res = mk("str.cat", SStr, cur, rhs)
+			v.d.declareFun("gstr.cat", []string{SStr, SStr}, SStr)
+			res = mk("gstr.cat", SStr, cur, rhs)
 			s.assume(Eq(v.strLen(res), Add(v.strLen(cur), v.strLen(rhs))))
 		} else {
 			res = v.arith(s, op, cur, rhs, t, x.Pos())
